@@ -51,6 +51,7 @@ func runC06(c *core.Ctx) {
 	ruleCCITTTagAfterEOL(c, "C06-R22")
 	ruleCCITTEncoderTerminating(c, "C06-R23")
 	ruleCCITTColourTables(c, "C06-R24")
+	ruleResetComplete(c, "C06-R25")
 	ruleAliasHygiene(c, [3]string{"C06-R12", "C06-R13", "C06-R14"}, "pdf/internal/filter/lzw", "pdf/internal/filter/predict", "pdf/internal/filter/runlength", "pdf/internal/filter/ccittfax", "pdf/internal/filter/ascii85", "pdf/internal/filter/asciihex")
 }
 
@@ -1553,5 +1554,111 @@ func ruleCCITTByteAlign(c *core.Ctx, rule string) {
 		}
 		// once per row: the function doing it is decodeScanLine or is called from it on every path
 		_ = rSite
+	})
+}
+
+// ruleResetComplete (C06-R25): a coder that is recycled (sync.Pool, or a
+// constructor that wraps Reset) must come out of Reset in the state New would
+// give it.  A field that Reset assigns on some of its successful paths only
+// keeps, on the others, the value the previous user left in it: the stream
+// is then coded with the previous stream's parameters.  (An assignment that
+// is guarded by a test of the field itself -- a buffer allocated once and
+// kept -- is deliberate and not counted.)
+func ruleResetComplete(c *core.Ctx, rule string) {
+	c.Check(rule, "filters/reset-complete", "every field a coder's Reset method assigns is assigned on all of its successful paths", func(o *core.Ob) {
+		n := 0
+		for _, pkg := range c.Prog.RepoPkgs() {
+			short := core.ShortPkg(pkg.PkgPath)
+			if short != "pdf" && !strings.HasPrefix(short, "pdf/internal/filter/") {
+				continue
+			}
+			for _, fn := range c.Prog.Funcs(pkg) {
+				if fn.Decl.Recv == nil || fn.Decl.Body == nil || !strings.EqualFold(fn.Decl.Name.Name, "reset") || c.Prog.IsTestFile(fn.Decl.Pos()) {
+					continue
+				}
+				if len(fn.Decl.Recv.List) != 1 || len(fn.Decl.Recv.List[0].Names) != 1 {
+					continue
+				}
+				info := fn.Info()
+				recv := info.ObjectOf(fn.Decl.Recv.List[0].Names[0])
+				g := fn.Graph()
+				n++
+				o.At(fn.Site(fn.Decl, "Reset method"))
+				// assignments per field
+				sets := map[string][]*core.V{}
+				for _, v := range g.Vs {
+					var lhs []ast.Expr
+					switch st := v.AST.(type) {
+					case *ast.AssignStmt:
+						lhs = st.Lhs
+					case *ast.IncDecStmt:
+						lhs = []ast.Expr{st.X}
+					}
+					for _, l := range lhs {
+						if sel, ok := ast.Unparen(l).(*ast.SelectorExpr); ok && core.ObjOf(info, sel.X) == recv {
+							sets[sel.Sel.Name] = append(sets[sel.Sel.Name], v)
+						}
+					}
+				}
+				// successful ends: returns whose last result is not a known failure
+				var ends []*core.V
+				for _, r := range g.Returns() {
+					rs, ok := r.AST.(*ast.ReturnStmt)
+					if !ok {
+						continue
+					}
+					if len(rs.Results) > 0 {
+						last := rs.Results[len(rs.Results)-1]
+						if id, isID := ast.Unparen(last).(*ast.Ident); isID && id.Name == "err" {
+							// "return err" under err != nil is a failure
+							if g.GuardedBy(r, func(a core.Atom) bool {
+								cmp, isCmp := a.AsCmp()
+								return isCmp && cmp.Op == token.NEQ && core.IsNil(info, cmp.R) && core.ObjOf(info, cmp.L) == info.ObjectOf(id)
+							}) {
+								continue
+							}
+						}
+					}
+					ends = append(ends, r)
+				}
+				for _, p := range g.ExitPreds() {
+					if _, isRet := p.AST.(*ast.ReturnStmt); !isRet {
+						ends = append(ends, p)
+					}
+				}
+				for f, vs := range sets {
+					o.Count(1)
+					// deliberate: guarded by a test of the field itself
+					selfGuarded := true
+					for _, v := range vs {
+						sg := g.GuardedBy(v, func(a core.Atom) bool {
+							found := false
+							ast.Inspect(a.Expr, func(m ast.Node) bool {
+								if sel, ok := m.(*ast.SelectorExpr); ok && sel.Sel.Name == f && core.ObjOf(info, sel.X) == recv {
+									found = true
+								}
+								return !found
+							})
+							return found
+						})
+						if !sg {
+							selfGuarded = false
+						}
+					}
+					if selfGuarded {
+						continue
+					}
+					reach := g.ReachFrom(g.Entry, true, core.AvoidVs(vs...))
+					for _, e := range ends {
+						if reach[e] {
+							o.FailAt(fn.Site(vs[0].AST, ""), "%s assigns the field %s on some of its successful paths only (the end at %s is reached without it): a recycled value keeps what its previous user left there", fn.Key, f, c.Prog.Pos(e.AST.Pos()))
+							break
+						}
+					}
+				}
+			}
+		}
+		o.Fact("%d Reset methods in the filter packages", n)
+		o.Count(1)
 	})
 }
